@@ -705,3 +705,44 @@ def gen_recipe(rng, abs_units=None, unbalanced=None, nlangs=None, scc_safe=False
     if layouts and rng.random() < 0.4:
         rec["layout"] = rng.choice(layouts)
     return rec
+
+
+def head_siblings(text, limit=60):
+    """Every attribute-level sibling of an XML-ish document whose change lies in the head (before <body>): each head
+    attribute once dropped and once changed, plus - for DFXP - a root extent added / changed.  Deterministic."""
+    import re
+    global _ATTR_RE
+    if _ATTR_RE is None:
+        _ATTR_RE = re.compile(r'\s([\w:\-]+)="([^"]*)"')
+    low = text.lower()
+    head_end = low.find("<body")
+    if head_end < 0:
+        head_end = len(text) // 2
+    out = []
+    if "<tt" in text:
+        k = text.find("<tt") + 3
+        close = text.find(">", k)
+        if "tts:extent" not in text[k:close]:
+            out.append(text[:k] + ' tts:extent="640px 480px"' + text[k:])
+    for m in _ATTR_RE.finditer(text):
+        if m.start() >= head_end or m.group(1).startswith("xmlns"):
+            continue
+        name, val = m.group(1), m.group(2)
+        out.append(text[:m.start()] + text[m.end():])
+        new = None
+        for voc in _VOCAB:
+            if val in voc:
+                new = voc[(voc.index(val) + 1) % len(voc)]
+                break
+        if new is None:
+            digits = [i for i, ch in enumerate(val) if ch.isdigit()]
+            if digits:
+                i = digits[0]
+                new = val[:i] + ("7" if val[i] != "7" else "3") + val[i + 1:]
+            else:
+                new = val + "x"
+        out.append(text[:m.start()] + ' %s="%s"' % (name, new) + text[m.end():])
+    # SAMI: CSS declarations in the head
+    for m in re.finditer(r'([\w\-]+)\s*:\s*([^;{}]+);', text[:head_end]):
+        out.append(text[:m.start()] + text[m.end():])
+    return out[:limit]
